@@ -390,6 +390,17 @@ func (w guardedWriter) Write(v any) {
 	case <-w.done:
 		return
 	default:
+		defer func() {
+			// 通过守卫之后，cancel/finish 可能已关闭输出通道：
+			// 此时的写入与“已取消”等价，直接丢弃，而不是让 send on closed channel 冒泡成调用方的 panic
+			if r := recover(); r != nil {
+				select {
+				case <-w.done:
+				default:
+					panic(r)
+				}
+			}
+		}()
 		w.channel <- v
 	}
 }
